@@ -49,7 +49,9 @@ PROPS = {
     },
     "C04": {
         "statement": "Scenario.C04_exactly_once",
-        "engines": [plan("funnel,plan,batch,tl"), trace("funnel,batch,tl,base", quick=50, **{"partial-modes": True})],
+        "engines": [plan("funnel,plan,batch,tl"), trace("funnel,batch,tl,base", quick=50, **{"partial-modes": True}),
+                    # histories with a caught panic between the dispatches
+                    trace("flat,batch", quick=20, thorough=600, panics=True)],
         "aspects": TRACE,
         "assumptions": [RAYON],
     },
@@ -66,7 +68,9 @@ PROPS = {
     },
     "C05": {
         "statement": "Scenario.C05_schedule_independence: every trace of the parallel plan has the effect of the sequential trace, given that events of non-conflicting systems commute",
-        "engines": [trace("flat,base,batch,tl", quick=80, rounds=4), trace("flat,base,batch", quick=30, nopar=True)],
+        "engines": [trace("flat,base,batch,tl,funnel", quick=100, rounds=4), trace("flat,base,batch", quick=30, nopar=True),
+                    # what may run in parallel is decided by the plan: layouts against the model's, where groups have several members
+                    plan("funnel,plan", quick=500)],
         "aspects": TRACE + ["effects"],
         "assumptions": [RAYON, CELL, "the harness systems' update function (sys.rs::mix / Model/Effect.lean::mix) stands for 'behaviour that depends only on own state and declared resources'"],
     },
